@@ -9,6 +9,7 @@ import (
 	"verif/mc/explore"
 	_ "verif/mc/gx"
 	_ "verif/mc/hist"
+	_ "verif/mc/ix"
 )
 
 func usage() int {
